@@ -1448,6 +1448,10 @@ class CExec:
         """inv: object with .holds(ex, st) -> [(label, Bool)], .modifies (names) optional, .decreases(ex, st)."""
         if is_do:
             raise OutOfSubset("do-loop with invariant")
+        if hasattr(inv, "bind"):
+            # structural invariants (e.g. counted loops over compiler temporaries) read the loop's own condition /
+            # increment and the state at loop entry instead of naming variables
+            inv = inv.bind(self, st, n, cond, inc)
         for label, f in inv.holds(self, st):
             self.oblige(st, "inv", "entry.%s" % label, f, n)
         # havoc everything the loop may assign
